@@ -726,9 +726,10 @@ impl OsIpcOneShotServer {
             if client_fd < 0 {
                 return Err(UnixError::last());
             }
-            make_socket_lingering(client_fd)?;
-
+            // The receiver owns the descriptor from here on, so it is closed on every error path.
             let receiver = OsIpcReceiver::from_fd(client_fd);
+            make_socket_lingering(receiver.fd.get())?;
+
             let (data, channels, shared_memory_regions) = receiver.recv()?;
             Ok((receiver, data, channels, shared_memory_regions))
         }
